@@ -292,7 +292,7 @@ fn long_stream(i: u64, seed: u64, calls: usize) -> Out {
 
 pub fn run(rep: &mut Report) {
     quiet_panics();
-    rep.rule = "per random stream (1..1e5 distinct items, duplicates, sketch size 1..10x the stream; one stream in 97 has a sketch size in 65530..70000) and sketcher (SuperMinHash f32/f64/NoHash, SuperMinHash2 u64/u32, SetSketch u16/u32 with 6 parameter tuples, Opt/RevOpt densification f32/f64 with all three views): the one-slice sketch is compared bit for bit with item-wise, sorted, reversed, shuffled, deduplicated, tripled, chunked (2-8 calls mixing slice and item calls) and winners-first/last executions; stored hashes must be hashes of streamed items. Targeted leg: f32 densified sketchers with >= 1e5 items per bin, stream vs reversed stream (exact ties of the minimum). Long-lived leg: one instance per (kind, m) takes 3 rounds of >= 7e4 (thorough 3e5) calls on 2..40 distinct items with reinit between rounds (counters of the implementation pass 2^16, 2^17), each round compared with the fresh sketch of the distinct items. Distinct = digest of (kind, m, items); non-trivial when >= 2 distinct items".into();
+    rep.rule = "per random stream (1..1e5 distinct items, duplicates, sketch size 1..10x the stream; one stream in 97 has a sketch size in 65530..70000) and sketcher (SuperMinHash f32/f64/NoHash, SuperMinHash2 u64/u32, SetSketch u16/u32 with 6 parameter tuples, Opt/RevOpt densification f32/f64 with all three views): the one-slice sketch is compared bit for bit with item-wise, sorted, reversed, shuffled, deduplicated, tripled, chunked (2-8 calls mixing slice and item calls) and winners-first/last executions; stored hashes must be hashes of streamed items. Targeted leg: f32 densified sketchers with >= 1e5 items per bin, stream vs reversed stream (exact ties of the minimum). f32 boundary leg: 6e5 / 6e6 single-item SuperMinHash<f32> sketches are scanned for a value that sits exactly on an integer; each such item is streamed before and after 2000 second items. Long-lived leg: one instance per (kind, m) takes 3 rounds of >= 7e4 (thorough 3e5) calls on 2..40 distinct items with reinit between rounds (counters of the implementation pass 2^16, 2^17), each round compared with the fresh sketch of the distinct items. Distinct = digest of (kind, m, items); non-trivial when >= 2 distinct items".into();
     let nstreams: u64 = rep.tier.pick(3000, 60_000);
     let seed = subseed(rep.seed, "C04/streams", &[]);
     let tier = rep.tier;
@@ -340,6 +340,48 @@ pub fn run(rep: &mut Report) {
                 }
             }
             Err(p) => rep.violation("C04/panic", &format!("tie{}", i), format!("panic: {}", p), json!({"tie_stream": i})),
+        }
+    }
+    // ---- targeted search (f32 SuperMinHash): an item one of whose values sits exactly on an integer (r + j rounded up to j + 1)
+    // would be counted in the wrong level of the algorithm's bookkeeping; every such item found is streamed before and after
+    // many second items (on the unchanged tree none is found and the leg only reports the number of items scanned)
+    if only.as_ref().map(|c| c == "f32-boundary").unwrap_or(true) {
+        let nscan: u64 = rep.tier.pick(600_000, 6_000_000);
+        for m in [8usize, 16, 64] {
+            let found: Vec<u64> = (0..64u64)
+                .into_par_iter()
+                .flat_map_iter(|c| {
+                    let mut rng = rng_from(mix(&[seed, m as u64, c, 0xf32b]));
+                    let mut out = Vec::new();
+                    for _ in 0..nscan / 64 / 3 {
+                        let d = fresh_ids(&mut rng, 1, 0)[0];
+                        let bits = by_slice(UKind::SmhF32, m, &[d]);
+                        if bits[..m].iter().any(|b| {
+                            let v = f64::from_bits(*b);
+                            v.fract() == 0. && v >= 1.
+                        }) {
+                            out.push(d);
+                        }
+                    }
+                    out
+                })
+                .collect();
+            rep.evaluations += nscan / 3;
+            rep.count("f32_boundary.items_scanned", nscan / 3);
+            rep.count("f32_boundary.items_with_integral_value", found.len() as u64);
+            for first in found.iter().take(40) {
+                let mut rng = rng_from(mix(&[seed, *first]));
+                for _ in 0..2000 {
+                    let second = fresh_ids(&mut rng, 1, 0)[0];
+                    rep.evaluations += 2;
+                    let (x, y) = (by_items(UKind::SmhF32, m, &[*first, second]), by_items(UKind::SmhF32, m, &[second, *first]));
+                    if x != y {
+                        let p = (0..x.len()).find(|&p| x[p] != y[p]).unwrap_or(0);
+                        rep.violation("C04/reversed", "f32-boundary", format!("SmhF32 m={}: the streams [{}, {}] and [{}, {}] give different sketches (entry {} of the bit image: {:#x} vs {:#x}); the first item has a value that sits exactly on an integer", m, first, second, second, first, p, x[p], y[p]), json!({"kind": "SmhF32", "m": m, "items": [first, second]}));
+                        break;
+                    }
+                }
+            }
         }
     }
     // long-lived instances
